@@ -1,6 +1,6 @@
 """C09  pushes compose (DESIGN §4 C09)."""
 from .. import callgraph, cfg, dataflow as df, guards, noninterf, patterns as pt
-from ..common import A, calls_named
+from ..common import A, calls_named, builder_chain, is_log_open
 from ..facts import callee_of
 from . import c04
 
@@ -16,27 +16,6 @@ EXPLANATION = (
 LEVEL_NOTE = "Undecided: equality of the resulting trees for different splittings of a series."
 
 
-def builder_chain(fn, op):
-    """[(method, const_arg or None)] applied to the OpenOptions value reaching `op`; None if it cannot be followed."""
-    e = df.operand_expr(fn, op)
-    chain = []
-    for _ in range(16):
-        if not (isinstance(e, tuple) and e and e[0] == "call"):
-            return None
-        path = e[1]
-        if not path.startswith("std::fs::OpenOptions::"):
-            return None
-        m = path.split("::")[-1]
-        if m == "new":
-            chain.reverse()
-            return chain
-        arg = e[2][1] if len(e[2]) > 1 else None
-        val = arg[1] if isinstance(arg, tuple) and arg[0] == "const" else None
-        chain.append((m, val))
-        e = e[2][0]
-    return None
-
-
 def run(ck):
     prog, cg = ck.prog, ck.cg
     cmd_push = ck.anchor(A["cmd_push"])
@@ -46,7 +25,8 @@ def run(ck):
     opens = []
     for fn in prog.fns.values():
         for bb, t, c in calls_named(fn, "std::fs::OpenOptions::open"):
-            opens.append((fn, bb, t))
+            if is_log_open(fn, t):      # other OpenOptions users (none today) are C15's business, not the log's
+                opens.append((fn, bb, t))
     ck.floor("C09-R1", "OpenOptions::open sites", len(opens), 1)
     for fn, bb, t in opens:
         ch = builder_chain(fn, t["args"][0])
